@@ -329,6 +329,12 @@ impl<T> RwLock<T> {
             None
         }
     }
+    pub fn get_mut(&mut self) -> &mut T {
+        self.data.get_mut()
+    }
+    pub fn into_inner(self) -> T {
+        self.data.into_inner()
+    }
     /// Harness-only: look at the data without touching the lock (no scheduling point). Only
     /// sound when the caller knows no writer is active (quiescent points of a cooperative run).
     pub unsafe fn peek(&self) -> &T {
@@ -384,6 +390,12 @@ impl<T> Mutex<T> {
     pub fn lock(&self) -> MutexGuard<'_, T> {
         self.sem.acquire_blocking(1).expect("mutex closed (a holder panicked)");
         MutexGuard { lock: self }
+    }
+    pub fn get_mut(&mut self) -> &mut T {
+        self.data.get_mut()
+    }
+    pub fn into_inner(self) -> T {
+        self.data.into_inner()
     }
     pub fn try_lock(&self) -> Option<MutexGuard<'_, T>> {
         if self.sem.try_acquire(1).is_ok() {
